@@ -70,19 +70,15 @@ def knownHandedOut : List (String × String) := [
   ("op.Scopes", "op.DefaultSupportedScopes"),
   ("op.SupportedClaims", "op.DefaultSupportedClaims")]
 
-/-- class S (potential, audited): the error-answer functions write the CURRENT request's `state` / `session_state` into
-    the `*oidc.Error` found (errors.As) in the error value they were handed.  Every error value the LIBRARY produces is
-    created per call (`oidc.ErrInvalidRequest()` … are constructor functions; `c20_no_shared_cell_reachable_from_written_value`:
-    no package-level `*oidc.Error` exists), so the written object is the request's own.  An application whose `op.Storage` /
-    `AuthorizeValidator` returns one shared `*oidc.Error` instance hands the library an object that it then mutates per request. -/
-def knownSuppliedErrorWrites : List (String × String) := [
-  ("oidc.DefaultToServerError", "oauth.ErrorType"),
-  ("oidc.DefaultToServerError", "oauth.Description"),
-  ("oidc.DefaultToServerError", "oauth.Parent"),
-  ("op.AuthRequestError", "e.State"),
-  ("op.AuthRequestError", "e.SessionState"),
-  ("op.TryErrorRedirect", "e.State"),
-  ("op.TryErrorRedirect", "e.SessionState")]
+/-- the methods of `*oidc.Error` that assign to a field of their receiver (`oidc.ErrX().WithDescription(…)`): the ONLY writes into
+    an `oidc.Error` that the writing function did not create.  (Class S of round 3 — `op.AuthRequestError` / `op.TryErrorRedirect`
+    writing the current request's `state` / `session_state` into the `*oidc.Error` found (errors.As) in the error value they were
+    handed — is gone: F-C11e, the functions complete a copy.  The three writes of `oidc.DefaultToServerError` listed there were
+    writes into its own `new(Error)`: they happen only where errors.As answered false.) -/
+def knownErrorMutators : List (String × String) := [
+  ("oidc.Error.WithParent", "e.Parent"),
+  ("oidc.Error.WithReturnParentToClient", "e.returnParent"),
+  ("oidc.Error.WithDescription", "e.Description")]
 
 /-- order-insensitive equality of two duplicate-free descriptions -/
 def sameSet {α : Type} [BEq α] (a b : List α) : Bool := a.all b.contains && b.all a.contains
